@@ -358,12 +358,22 @@ class Engine:
                         if self.pos != len(self.trail):
                             raise Inconclusive("non-deterministic replay: trail not consumed")
                         if on_path is not None:
-                            on_path(status, result, self)
+                            try:
+                                on_path(status, result, self)
+                            except PathTimeout:
+                                # the concrete validation run on the real package did not come back
+                                status = "timeout"
+                                try:
+                                    self.timeouts.append(self.eval_inputs(self.get_model()))
+                                except BaseException:  # noqa: BLE001
+                                    self.timeouts.append(None)
                 finally:
                     self.path_started = None
                     self.solver.pop()
                 if status == "timeout":
-                    del self.trail[self.pos :]
+                    # one such path is enough for the unit: it is reported (after confirmation on the
+                    # real package) or makes the unit inconclusive; do not burn the budget on siblings
+                    break
                 if self.max_paths and self.stats.paths >= self.max_paths:
                     raise PathLimit(f"more than {self.max_paths} paths")
                 while self.trail and (self.trail[-1].forced or self.trail[-1].flipped):
